@@ -94,6 +94,8 @@ func body(r *vf.Run) {
 		stageL2(r)
 	case "hist":
 		stageHist(r)
+	case "histp":
+		stageHistP(r)
 	case "l2gate":
 		stageL2Gate(r)
 	case "l3":
@@ -116,7 +118,7 @@ func top(r *vf.Run) {
 	for i := 0; i < nb2; i++ {
 		stages = append(stages, st{"l2", true, []string{fmt.Sprint(i), fmt.Sprint(nb2)}, 14 * time.Minute})
 	}
-	stages = append(stages, st{"hist", true, nil, 14 * time.Minute})
+	stages = append(stages, st{"hist", true, nil, 14 * time.Minute}, st{"histp", true, nil, 14 * time.Minute})
 	nb := r.N(4, 8) // l1 batches
 	for i := 0; i < nb; i++ {
 		stages = append(stages, st{"l1", false, []string{fmt.Sprint(i), fmt.Sprint(nb)}, 14 * time.Minute})
@@ -276,7 +278,9 @@ func buildBlob(r *vf.Run, idx int, compression string) (*blobCase, error) {
 // buildBlobMode: gate=true draws blobs for the hook-ordered stages: no hardlinks and no
 // min-chunk-size (one altered chunk => exactly one readAndCache call per Cache walk), no
 // prioritized files (=> .no.prefetch.landmark, so that at L2 only BackgroundFetch walks).
-func buildBlobMode(r *vf.Run, idx int, compression string, gate bool) (*blobCase, error) {
+// prioAll (optional): every regular file is prioritized (=> .prefetch.landmark after them,
+// so that layer.Prefetch walks all file data).
+func buildBlobMode(r *vf.Run, idx int, compression string, gate bool, prioAll ...bool) (*blobCase, error) {
 	var lastErr error
 	for try := 0; try < 12; try++ {
 		rng := r.RNG(0xB10B, uint64(idx), uint64(try))
@@ -315,6 +319,13 @@ func buildBlobMode(r *vf.Run, idx int, compression string, gate bool) (*blobCase
 			o.MaxFileSize = 40
 		}
 		ents := gen.RandomTar(rng, o)
+		if len(prioAll) > 0 && prioAll[0] {
+			for _, e := range ents {
+				if e.Type == tar.TypeReg && e.Size > 0 {
+					bo.Prioritized = append(bo.Prioritized, gen.Clean(e.Name))
+				}
+			}
+		}
 		if rng.Bool() && !gate {
 			// prioritized files => .prefetch.landmark => layer.Prefetch really prefetches
 			for _, e := range ents {
